@@ -697,6 +697,29 @@ mod full {
                 let d = pdec(arg(1)?)?;
                 let js = serde_json::to_string(&d).map_err(|e| e.to_string())?;
                 let back: Result<Decimal, _> = serde_json::from_str(&js);
+                // the other ways a string reaches a Deserialize impl: an owned String (serde_json::Value), a
+                // transient &str (from_reader has nothing to borrow from), and a string with escapes
+                let text = js.trim_matches('"').to_string();
+                let via_value: Result<Decimal, _> =
+                    serde_json::from_value(serde_json::Value::String(text.clone()));
+                let via_reader: Result<Decimal, _> = serde_json::from_reader(js.as_bytes());
+                let escaped = format!("\"\\u00{:02x}{}\"", text.as_bytes()[0], &text[1..]);
+                let via_escaped: Result<Decimal, _> = serde_json::from_str(&escaped);
+                let same = |r: &Result<Decimal, serde_json::Error>| match (r, &back) {
+                    (Ok(a), Ok(b)) => {
+                        a.coefficient() == b.coefficient() && a.n_frac_digits() == b.n_frac_digits()
+                    }
+                    _ => false,
+                };
+                if !(same(&via_value) && same(&via_reader) && same(&via_escaped)) {
+                    return Ok(Some(format!(
+                        "{} X value={:?} reader={:?} escaped={:?}",
+                        hex(&js),
+                        via_value.map(|d| (d.coefficient(), d.n_frac_digits())).ok(),
+                        via_reader.map(|d| (d.coefficient(), d.n_frac_digits())).ok(),
+                        via_escaped.map(|d| (d.coefficient(), d.n_frac_digits())).ok()
+                    )));
+                }
                 format!(
                     "{} {}",
                     hex(&js),
